@@ -5,6 +5,7 @@ import (
 	"net/url"
 	"os"
 	"regexp"
+	"slices"
 	"sort"
 	"strings"
 	"testing"
@@ -492,6 +493,26 @@ func runFaultSweep(t *testing.T, spec kernel.Spec, prop string, idx int) *kernel
 			out.Violations = append(out.Violations, o.Violations...)
 			out.Log = append(out.Log, o.Log...)
 			out.SimSeconds += o.SimSeconds
+		}
+	}
+	if slices.Contains(methods, "StoreDeviceAuthorization") && (!spec.KeepSet || containsInt(spec.Keep, 15000)) {
+		// the documented answer "this user code is taken", given every time (a tiny or exhausted code space): in every tier
+		o, _, _, _ := runPlan(0, world.FaultDuplicate, &plan{method: "StoreDeviceAuthorization", id: 15000, label: "every StoreDeviceAuthorization call answers " + world.FaultDuplicate})
+		if o.Infra != "" {
+			out.Infra = o.Infra
+			return out
+		}
+		if len(o.Faults) > 0 {
+			out.StepIDs = append(out.StepIDs, 15000)
+			out.Steps++
+			out.Trace = append(out.Trace, fmt.Sprintf("%s/%s/always:StoreDeviceAuthorization:%s", router, flow.name, world.FaultDuplicate))
+			out.Distinct(fmt.Sprintf("%s/%s/always:StoreDeviceAuthorization:%s", router, flow.name, world.FaultDuplicate))
+			for f, v := range o.Faults {
+				out.Faults[strings.SplitN(f, ":", 2)[0]] += v
+			}
+			out.Violations = append(out.Violations, o.Violations...)
+			out.Log = append(out.Log, o.Log...)
+			out.Probe("user-code-always-taken")
 		}
 	}
 	if os.Getenv("VERIF_TIER") == "thorough" || spec.Params["extras"] != "" || spec.KeepSet {
